@@ -2634,3 +2634,46 @@ def hash_seed_replay(scenarios=("bootstrap_districts", "bootstrap", "gaussian", 
         out["exc"] = f"{type(e).__name__}: {e}"
         out["ok"] = False
     return out
+
+
+def gaussian_recursion_bottom_replay():
+    """REAL GaussianModel.fit with FEW calibration units (3, 4, 9; three is the least the gate lets through) and (a) the empty aggregate, (b) a one-key aggregate whose only
+    state is smaller than 10: every call must return (no RecursionError), the empty aggregate through ONE call (no fallback), the
+    one-key aggregate through at most the three calls of one fallback step"""
+    from elexmodel.distributions.GaussianModel import GaussianModel
+
+    out = {"exc": None, "problems": []}
+    try:
+        for n in (3, 4, 9, 10, 25):
+            cal = pd.DataFrame([{"postal_code": "AA" if i % 3 else "BB", "geographic_unit_fips": f"u{i}", "last_election_results_turnout": 100.0 + i, "lower_bounds": -0.1 + 0.01 * i, "upper_bounds": 0.1 + 0.02 * i} for i in range(n)])
+            non = pd.DataFrame([{"postal_code": s_, "geographic_unit_fips": f"n{j}", "last_election_results_turnout": 50.0} for j, s_ in enumerate(["AA", "BB", "CC"])])
+            for agg in ([], ["postal_code"]):
+                calls = []
+
+                class Rec(GaussianModel):
+                    def fit(self, conformalization_data, reporting_units, nonreporting_units, estimand, aggregate=[], **kw):
+                        calls.append(list(aggregate))
+                        if len(calls) > 50:
+                            raise RuntimeError("more than 50 nested / repeated calls of fit: the recursion does not end")
+                        return super().fit(conformalization_data, reporting_units, nonreporting_units, estimand, aggregate=aggregate, **kw)
+
+                try:
+                    with warnings.catch_warnings():
+                        warnings.simplefilter("ignore")
+                        m = Rec({"beta": 1, "winsorize": False, "save_conformalization": False}).fit(cal, cal.copy(), non, "turnout", aggregate=list(agg), alpha=0.9)
+                except (RecursionError, RuntimeError) as e:
+                    out["problems"].append({"calibration_units": n, "aggregate": agg, "what": f"{type(e).__name__}: {e}"[:160], "calls": len(calls)})
+                    continue
+                if not agg and calls != [[]]:
+                    out["problems"].append({"calibration_units": n, "aggregate": agg, "what": "the empty aggregate fell back", "calls": calls[:6]})
+                if agg and len(calls) > 3:
+                    out["problems"].append({"calibration_units": n, "aggregate": agg, "what": "more than one fallback step below a one-key aggregate", "calls": calls[:8]})
+        out["problems"] = out["problems"][:4]
+        out["ok"] = not out["problems"]
+    except Exception as e:  # noqa
+        import traceback
+
+        out["exc"] = f"{type(e).__name__}: {e}"
+        out["trace"] = traceback.format_exc()[-500:]
+        out["ok"] = False
+    return out
